@@ -15,7 +15,7 @@ from typing import Union
 from harness.common import ASSUME, FAIL, PASS, check, tape_harness  # noqa: F401
 from harness import oracles as O
 from engine import verdicts as _V
-from harness.frames import (CO_COROUTINE, CO_GENERATOR, REPR_MSG, RETURN_OPS, YIELD_OP, CodeView, FakeFrame, ListLogger, classify_exit,
+from harness.frames import (AT_OP, AT_RAISE, AT_RETURN, AT_YIELD, CO_COROUTINE, CO_GENERATOR, REPR_MSG, RETURN_OPS, YIELD_OP, CodeView, FakeFrame, ListLogger, classify_exit,
                             record_workload, representation_ok, residue, seed_function, validate_contract)
 from harness.values import Grammar, build_value, show
 from vfix import funcs as F
@@ -122,16 +122,19 @@ def step_body(t, op, is_coro, k, depth_inflight=2, max_yields=2, rich=False):
         entry = {name: FIXED_ENTRY[i] for i, name in enumerate(_named_params(func))}
         ny = t.take(max_yields + 1)
         yields = [build_value(t, G_ATOM) for _ in range(ny)]
-        fr = FakeFrame(CodeView(func.__code__), dict(entry))
+        # every pre-state frame may be the step's target: its code view carries the symbolic opcode in slot AT_OP, and the
+        # symbolic coroutine flag (in a coroutine the suspensions of the prefix are awaits: they leave no yield type)
+        flags = (func.__code__.co_flags & ~CO_COROUTINE) | (CO_COROUTINE if is_coro else 0)
+        fr = FakeFrame(CodeView(func.__code__, op, flags), dict(entry))
         seed_function(tracer, fr.f_code, func)
-        fr.f_code.co_code = [0]
+        fr.f_lasti = AT_RAISE
         tracer(fr, "call", None)
         for y in yields:
-            fr.f_code.co_code = [YIELD_OP]
+            fr.f_lasti = AT_YIELD
             tracer(fr, "return", y)
             tracer(fr, "call", None)
         frames.append(fr)
-        models.append(_Model(func, entry, yields))
+        models.append(_Model(func, entry, [] if is_coro else yields))
     if logger.traces:
         return check(False, lambda: f"{len(logger.traces)} trace(s) logged while {n_inflight} call(s) were only started / suspended")
     # ---- the step (only the dimensions the event can depend on are decoded)
@@ -160,17 +163,13 @@ def step_body(t, op, is_coro, k, depth_inflight=2, max_yields=2, rich=False):
             entry[name] = build_value(t, G_VAL) if (i == 0 or rich) and relevant and event == "call" and resolvable else FIXED_ENTRY[i]
         locs = dict(entry)
         locs["zz_local"] = 0  # a local that is not a parameter must never be recorded
-        fr = FakeFrame(CodeView(func.__code__), locs)
+        fr = FakeFrame(CodeView(func.__code__, op), locs)
         seed_function(tracer, fr.f_code, func if resolvable else None, like=func)
         verdict[id(fr.f_code)] = admit
     else:
         fr = frames[target]
         func, resolvable, entry = models[target].func, True, models[target].entry
-    flags = func.__code__.co_flags
-    if relevant and event == "return" and not is_new:
-        flags = (flags & ~CO_COROUTINE) | (CO_COROUTINE if is_coro else 0)
-    fr.f_code.co_code = [op]
-    fr.f_code.co_flags = flags
+    fr.f_lasti = AT_OP  # the last executed instruction is the one with the symbolic opcode
 
     ret = tracer(fr, event, arg)
 
@@ -210,7 +209,6 @@ def step_body(t, op, is_coro, k, depth_inflight=2, max_yields=2, rich=False):
         if residue(tracer, fr):
             return check(False, lambda: f"per-call state left in tracer.{residue(tracer, fr)[0]} after the call finished")
     # ---- 2. drain: finish every frame; exactly the frames that should still be in flight are logged, each once, faithfully
-    ret_op = sorted(RETURN_OPS)[0]
     todo = [(frames[i], models[i].func, models[i].entry, (changed[1] if changed and changed[0] == i else models[i].yields), True) for i in range(n_inflight)
             if i in still]
     todo += [(frames[i], None, None, None, False) for i in range(n_inflight) if i not in still]
@@ -218,7 +216,7 @@ def step_body(t, op, is_coro, k, depth_inflight=2, max_yields=2, rich=False):
         todo.append((fr, func, entry, [], started_new))
     for dfr, dfunc, dentry, dyields, alive in todo:
         before = len(logger.traces)
-        dfr.f_code.co_code = [ret_op]
+        dfr.f_lasti = AT_RETURN
         tracer(dfr, "return", None)
         new = logger.traces[before:]
         if not alive:
